@@ -381,20 +381,23 @@ func run(r *mon.Run) {
 		if i%4 == 0 {
 			sp := sc.signers[0]
 			vu, _ := url.Parse("https://" + sp.hosts[0] + "/validity")
-			for _, d := range []time.Duration{604800 * time.Second, 604801 * time.Second} {
+			for _, d := range []time.Duration{604800 * time.Second, 604801 * time.Second, 8 * 24 * time.Hour, 30 * 24 * time.Hour} {
 				s2, _ := signature.NewSigner(sc.ver, sp.id.Chain, sp.id.Key, vu, sp.date, d)
 				sigs, err := s2.UpdateSignatures(nil)
 				if err != nil {
 					continue
 				}
-				_, verr := signature.NewVerifier(sigs, sp.date.Add(time.Minute), sc.ver)
-				outcome := "lifetime-agree"
-				if (d > 604800*time.Second) == (verr == nil) {
-					outcome = "LIFETIME-WRONG"
-					r.Violation(fmt.Sprintf("bs:%s:lifetime:%v", sc.desc, d), fmt.Sprintf("signature with lifetime %v: NewVerifier error = %v", d, verr), nil)
+				// an over-long signature must be refused at every instant of its window, a 7-day one accepted at every instant
+				for name, tt := range map[string]time.Time{"date": sp.date, "date+1m": sp.date.Add(time.Minute), "mid": sp.date.Add(d / 2), "expires-1m": sp.date.Add(d - time.Minute), "expires": sp.date.Add(d)} {
+					_, verr := signature.NewVerifier(sigs, tt, sc.ver)
+					outcome := "lifetime-agree"
+					if (d > 604800*time.Second) == (verr == nil) {
+						outcome = "LIFETIME-WRONG"
+						r.Violation(fmt.Sprintf("bs:%s:lifetime:%v:%s", sc.desc, d, name), fmt.Sprintf("signature with lifetime %v verified at t=%s: NewVerifier error = %v", d, name, verr), nil)
+					}
+					r.Eval("time:" + outcome)
+					r.Distinct(fmt.Sprintf("lifetime|%v|%s|%s", d, name, outcome))
 				}
-				r.Eval("time:" + outcome)
-				r.Distinct(fmt.Sprintf("lifetime|%v|%s", d, outcome))
 			}
 		}
 
